@@ -173,10 +173,10 @@ func (t *tamperConn) Read(b []byte) (int, error) {
 
 func run(c *vh.Ctx) {
 	certs := newTestCerts()
-	nseq := 2
+	nseq, nparts, nwrites := 1, 2, 2
 	ntamper := 3
 	if c.Tier != "quick" {
-		nseq = 6
+		nseq, nparts, nwrites = 6, 3, 3
 		ntamper = 12
 	}
 	for _, cb := range combos() {
@@ -200,8 +200,8 @@ func run(c *vh.Ctx) {
 			}
 			ok := true
 			// client -> server, with key updates in between (TLS 1.3)
-			for part := 0; part < 3 && ok; part++ {
-				sizes := randSizes(c.Rng, 3+c.Rng.Intn(4))
+			for part := 0; part < nparts && ok; part++ {
+				sizes := randSizes(c.Rng, nwrites+c.Rng.Intn(3))
 				if err := transfer(p.client.Write, p.server, p.server.SetReadDeadline, sizes, c.Rng); err != nil {
 					fail("c2s", err)
 					ok = false
@@ -216,7 +216,7 @@ func run(c *vh.Ctx) {
 					ok = false
 					break
 				}
-				if cb.version == tls.VersionTLS13 && part < 2 {
+				if cb.version == tls.VersionTLS13 && part < nparts-1 {
 					req := c.Rng.Intn(2) == 0
 					if err := p.client.VerifSendKeyUpdate(req); err != nil {
 						fail("keyupdate", err)
